@@ -35,10 +35,26 @@ Definition fileset := list (N * sfile).
 Definition get_file (fs : fileset) (p : N) : option sfile := assoc_get fs p.
 
 (* a scope entry: the name under which a macro is visible, and the file that declares it *)
-Record sentry := mkEntry { e_alias : option N; e_name : N; e_file : N; e_macro : smacro }.
+(* e_local: the macro is declared in the body of a function (the main file, a
+   layout, a rendered file: their macros are function literals held in
+   variables), not at package level (imported files, the file that extends) *)
+Record sentry := mkEntry { e_alias : option N; e_name : N; e_file : N; e_local : bool; e_macro : smacro }.
 
-Definition own_entries (p : N) (f : sfile) : list sentry :=
-  map (fun m => mkEntry None (m_name m) p m) (f_macros f).
+Definition own_entries (p : N) (f : sfile) (imported : bool) : list sentry :=
+  map (fun m => mkEntry None (m_name m) p (negb imported) m) (f_macros f).
+
+(* the macro called name is referred to in the body ns (a call without alias) *)
+Definition mentions (name : N) (ns : list snode) : bool :=
+  existsb (fun n => match n with
+                    | SShow _ (ECall None x _) | SVarShow _ (ECall None x _) => x =? name
+                    | _ => false
+                    end) ns.
+
+(* A macro held in a variable that another macro of the file refers to is
+   captured by a closure: the variable is indirect (or non local) and
+   canOptimizeShowMacro refuses the fast path for every call of it. *)
+Definition captured (f : sfile) (name : N) : bool :=
+  existsb (fun m => mentions name (m_body m)) (f_macros f).
 
 Definition import_entries (fs : fileset) (i : simport) : list sentry :=
   match get_file fs (i_path i) with
@@ -48,15 +64,15 @@ Definition import_entries (fs : fileset) (i : simport) : list sentry :=
               | None => f_macros g
               | Some names => filter (fun m => mem names (m_name m)) (f_macros g)
               end in
-    map (fun m => mkEntry (i_alias i) (m_name m) (i_path i) m) ms
+    map (fun m => mkEntry (i_alias i) (m_name m) (i_path i) false m) ms
   end.
 
 (* the scope of the file at path p; child = the file that extends it (dummy import with the identifier ".") *)
-Definition scope_of (fs : fileset) (p : N) (child : option N) : list sentry :=
+Definition scope_of (fs : fileset) (p : N) (child : option N) (imported : bool) : list sentry :=
   match get_file fs p with
   | None => []
   | Some f =>
-    own_entries p f
+    own_entries p f imported
     ++ flat_map (import_entries fs) (f_imports f)
     ++ match child with
        | None => []
@@ -108,15 +124,20 @@ Section Lower.
     match fuel with
     | O => None
     | S fuel' =>
-      let callee (e : sexp) : option (option tfunc) :=   (* Some None = not a call *)
+      let callee (e : sexp) : option (option (tfunc * bool)) :=   (* Some None = not a call; the flag: no fast path *)
         match e with
         | EVal _ | EParam _ => Some None
         | ECall alias name args =>
           match lookup sc alias name, args_ids params args with
           | Some en, Some ids =>
             if Nat.eqb (length ids) (m_nparams (e_macro en)) then
-              match lower_nodes fuel' (scope_of fs (e_file en) None) ids (m_body (e_macro en)) with
-              | Some body => Some (Some (TFunc (m_fmt (e_macro en)) (m_rec (e_macro en)) body))
+              match lower_nodes fuel' (scope_of fs (e_file en) None (negb (e_local en))) ids (m_body (e_macro en)) with
+              | Some body =>
+                let cap := e_local en && match get_file fs (e_file en) with
+                                         | Some g => captured g (e_name en)
+                                         | None => false
+                                         end in
+                Some (Some (TFunc (m_fmt (e_macro en)) (m_rec (e_macro en)) body, cap))
               | None => None
               end
             else None
@@ -128,8 +149,8 @@ Section Lower.
             match f_extends f with
             | Some _ => None
             | None =>
-              match lower_nodes fuel' (scope_of fs p None) [] (f_body f) with
-              | Some body => Some (Some (TFunc (f_fmt f) (f_rec f) body))
+              match lower_nodes fuel' (scope_of fs p None false) [] (f_body f) with
+              | Some body => Some (Some (TFunc (f_fmt f) (f_rec f) body, false))
               | None => None
               end
             end
@@ -153,16 +174,16 @@ Section Lower.
             | None => None
             | Some None =>
               match value e with Some id => Some (TShow c (vals id c)) | None => None end
-            | Some (Some (TFunc fmt rec body)) =>
-              if fast_path fmt (ctx_of c) then Some (TCall (TFunc fmt rec body) (ctx_of c))
-              else Some (TCallShow (TFunc fmt rec body) c fmt)
+            | Some (Some (TFunc fmt rec body, nofast)) =>
+              if fast_path fmt (ctx_of c) && negb nofast then Some (TCall (TFunc fmt rec body) (ctx_of c))
+              else Some (TCallShow (TFunc fmt rec body) c fmt nofast)
             end
           | SVarShow c e =>
             match callee e with
             | None => None
             | Some None =>
               match value e with Some id => Some (TShow c (vals id c)) | None => None end
-            | Some (Some (TFunc fmt rec body)) => Some (TCallShow (TFunc fmt rec body) c fmt)
+            | Some (Some (TFunc fmt rec body, nofast)) => Some (TCallShow (TFunc fmt rec body) c fmt nofast)
             end
           end in
         match first, lower_nodes fuel' sc params r with
@@ -179,7 +200,7 @@ Section Lower.
     | Some f =>
       match f_extends f with
       | None =>
-        match lower_nodes fuel (scope_of fs p None) [] (f_body f) with
+        match lower_nodes fuel (scope_of fs p None false) [] (f_body f) with
         | Some body => Some (TFunc (f_fmt f) (f_rec f) body)
         | None => None
         end
@@ -190,7 +211,7 @@ Section Lower.
         | Some lf =>
           match f_extends lf, f_body f with
           | None, [] =>
-            match lower_nodes fuel (scope_of fs l (Some p)) [] (f_body lf) with
+            match lower_nodes fuel (scope_of fs l (Some p) false) [] (f_body lf) with
             | Some body => Some (TFunc (f_fmt lf) (f_rec lf) body)
             | None => None
             end
